@@ -324,6 +324,8 @@ def _index(s: ast.AST, ev):
 
 
 def _int(v):
+    if isinstance(v, np.ndarray) and v.size == 1 and v.dtype == object:
+        v = v.reshape(-1)[0]  # (a 0-dimensional integer tensor used as an index / extent)
     if isinstance(v, bool) or not isinstance(v, (int, Fraction)) or (isinstance(v, Fraction) and v.denominator != 1):
         raise NotEvaluable("integer expected")
     return int(v)
